@@ -231,4 +231,101 @@ Proof.
 Qed.
 
 End Prog.
+
+(* ---------- nested history vs flat history ---------- *)
+
+Section HSim.
+Hypothesis LAWS : flat_laws tk z0.
+
+Lemma tspec_tail_sim c1 c2 l t (cur : list (gtree T)) o r1 r2 :
+  forallb no_asap_then_positive (tgrouped_leaves cur) = true ->
+  tspec_tail tk z0 c1 l t cur o = Some r1 ->
+  tspec_tail tk z0 c2 l t (map TLeaf (gflatten cur)) o = Some r2 ->
+  r1 = r2.
+Proof.
+  destruct LAWS as (L1 & L2 & L3).
+  intros Hy E1 E2. unfold tspec_tail in *. rewrite tenter_flat in E2.
+  destruct (enter_simt L1 t cur false o Hy) as (fl & its & o' & Hf & Hn & S).
+  rewrite Hf in E2. rewrite Hn in E1.
+  eapply (tspec_cycles_sim tk (tabs z0) L1 L2 L3); eassumption.
+Qed.
+
+Lemma grouped_sel (gs sel : list (gtree T)) :
+  (forall g, In g sel -> In g gs) ->
+  forallb no_asap_then_positive (tgrouped_leaves gs) = true ->
+  forallb no_asap_then_positive (tgrouped_leaves sel) = true.
+Proof.
+  intros Hs Hy. rewrite forallb_forall in *. intros l Hl. apply Hy.
+  unfold tgrouped_leaves in *. apply in_flat_map in Hl as (g & Hg & Hl).
+  apply in_flat_map. exists g. split; [now apply Hs|exact Hl].
+Qed.
+
+Lemma tspec_hist_sim (gs : list (gtree T)) c1 c2 :
+  forallb no_asap_then_positive (tgrouped_leaves gs) = true ->
+  forall (h : list trerun) cur st0 r1 r2,
+  (forall g, In g cur -> In g gs) -> Forall (wf_rerun gs) h ->
+  tspec_hist c1 cur st0 h = Some r1 ->
+  tspec_hist c2 (map TLeaf (gflatten cur)) st0 (map leaves_rerun h) = Some r2 ->
+  r1 = r2.
+Proof.
+  intro Hy. induction h as [|r h IH]; intros cur st0 r1 r2 Hc Wh E1 E2.
+  - cbn [tspec_hist map] in *. congruence.
+  - apply Forall_cons_iff in Wh as [Wr Wh]. destruct r as [l t'|l t1 sel]; cbn [map leaves_rerun tspec_hist] in E1, E2.
+    + destruct (tspec_tail tk z0 c1 l _ cur _) as [s1|] eqn:T1; [|discriminate].
+      destruct (tspec_tail tk z0 c2 l _ (map TLeaf (gflatten cur)) _) as [s2|] eqn:T2; [|discriminate].
+      pose proof (tspec_tail_sim _ _ _ _ _ _ _ _ (grouped_sel gs cur Hc Hy) T1 T2) as <-.
+      eapply IH; eassumption.
+    + destruct Wr as [Hs _].
+      destruct (tspec_tail tk z0 c1 l t1 sel _) as [s1|] eqn:T1; [|discriminate].
+      destruct (tspec_tail tk z0 c2 l t1 (map TLeaf (gflatten sel)) _) as [s2|] eqn:T2; [|discriminate].
+      pose proof (tspec_tail_sim _ _ _ _ _ _ _ _ (grouped_sel gs sel Hs Hy) T1 T2) as <-.
+      eapply IH; eassumption.
+Qed.
+
+Lemma flat_rerun_leaves (h : list trerun) : map flat_rerun h = map nest_rerun (map leaves_rerun h).
+Proof.
+  rewrite map_map. apply map_ext. intros [l t|l t sel]; cbn [flat_rerun nest_rerun leaves_rerun]; [reflexivity|].
+  now rewrite map_map.
+Qed.
+
+Lemma gts_ids_tleaves (ls : list (leaf T)) : gts_ids (map TLeaf ls) = map lf_id ls.
+Proof. induction ls as [|l ls IH]; [reflexivity|]. cbn [map]. now rewrite gts_ids_leaf, IH. Qed.
+
+Lemma sel_leaves (gs sel : list (gtree T)) : (forall g, In g sel -> In g gs) ->
+  forall l, In l (gflatten sel) -> In l (gflatten gs).
+Proof.
+  intros Hs l Hl. unfold gflatten in *. apply in_flat_map in Hl as (g & Hg & Hl).
+  apply in_flat_map. exists g. split; [now apply Hs|exact Hl].
+Qed.
+
+Lemma wf_leaves_rerun (gs : list (gtree T)) (h : list trerun) :
+  Forall (wf_rerun gs) h -> Forall (wf_rerun (map TLeaf (gflatten gs))) (map leaves_rerun h).
+Proof.
+  intro Wh. rewrite Forall_forall in *. intros r Hr. apply in_map_iff in Hr as (r0 & <- & Hr0).
+  specialize (Wh r0 Hr0). destruct r0 as [l t|l t sel]; cbn [leaves_rerun wf_rerun] in *; [exact I|].
+  destruct Wh as [Hs ND]. split.
+  - intros g Hg. apply in_map_iff in Hg as (lf & <- & Hl). apply in_map. eapply sel_leaves; eassumption.
+  - rewrite gts_ids_tleaves. eapply NoDup_app_l. eapply Permutation_NoDup; [apply gts_ids_perm|exact ND].
+Qed.
+
+Theorem flatten_hist (gs : list (gtree T)) (limit : option T) (t0 : T) (h : list trerun) c1 f1 a1 c2 f2 a2 :
+  wf_tree gs -> Forall (wf_rerun gs) h ->
+  forallb no_asap_then_positive (tgrouped_leaves gs) = true ->
+  oof (run_hist c1 f1 a1 (tnest_prog tk limit t0 z0 gs) (map nest_rerun h)) = false ->
+  oof (run_hist c2 f2 a2 (flat_prog tk limit t0 (gflatten gs)) (map flat_rerun h)) = false ->
+  leaf_view (map lf_id (gflatten gs)) (run_hist c1 f1 a1 (tnest_prog tk limit t0 z0 gs) (map nest_rerun h)) =
+  leaf_view (map lf_id (gflatten gs)) (run_hist c2 f2 a2 (flat_prog tk limit t0 (gflatten gs)) (map flat_rerun h)).
+Proof.
+  intros WF Wh Hy O1 O2.
+  rewrite (flat_prog_tleaves tk limit t0 z0), flat_rerun_leaves in *.
+  destruct (tree_hist_spec gs WF limit t0 c1 f1 a1 h Wh O1) as (sa & ra & Sa & Ha & Va).
+  destruct (tree_hist_spec (map TLeaf (gflatten gs)) (wf_tleaves gs WF) limit t0 c2 f2 a2 (map leaves_rerun h)
+              (wf_leaves_rerun gs h Wh) O2) as (sb & rb & Sb & Hb & Vb).
+  rewrite gflatten_tleaves in Vb. rewrite Va, Vb. f_equal.
+  destruct LAWS as (L1 & L2 & L3).
+  pose proof (tspec_run_sim tk (tabs z0) L1 L2 L3 c1 c2 limit t0 gs sa sb Hy Sa Sb) as <-.
+  exact (tspec_hist_sim gs c1 c2 Hy h gs sa ra rb (fun g Hg => Hg) Wh Ha Hb).
+Qed.
+
+End HSim.
 End THist.
